@@ -83,8 +83,8 @@ func (cr *cursor) updatePictoSequence() bool {
 		} else if cr.grapheme == ucd.GraphemeBreakZWJ {
 			// close the variable part of the sequence with (ZWJ)
 			cr.pictoSequence = seenPictoZWJ
-		} else {
-			// stop the sequence
+		} else if !cr.isExtentedPic {
+			// stop the sequence (an ExtendedPic starts a new one)
 			cr.pictoSequence = noPictoSequence
 		}
 		return false
